@@ -18,6 +18,7 @@ import (
 	"os"
 	"path/filepath"
 	"sort"
+	"strings"
 	"testing"
 	"time"
 
@@ -107,10 +108,11 @@ func verifC25SKeyStr(rank int64) string {
 }
 
 type verifC25Env struct {
-	h     *requestHandler
-	loc   *time.Location
-	whats map[int][]handlerWhat
-	meta  *format.MetricMetaValue
+	h      *requestHandler
+	loc    *time.Location
+	whats  map[int][]handlerWhat
+	meta   *format.MetricMetaValue
+	orders map[string][]verifC25Ord
 }
 
 func verifC25NewEnv() *verifC25Env {
@@ -122,10 +124,11 @@ func verifC25NewEnv() *verifC25Env {
 		meta.Tags[i].RawKind = "int"
 	}
 	return &verifC25Env{
-		meta:  meta,
-		h:     &requestHandler{Handler: &Handler{HandlerOptions: HandlerOptions{location: loc}}},
-		loc:   loc,
-		whats: map[int][]handlerWhat{},
+		meta:   meta,
+		h:      &requestHandler{Handler: &Handler{HandlerOptions: HandlerOptions{location: loc}}},
+		loc:    loc,
+		whats:  map[int][]handlerWhat{},
+		orders: map[string][]verifC25Ord{},
 	}
 }
 
@@ -139,6 +142,68 @@ func (e *verifC25Env) handlerWhats(n int) []handlerWhat {
 	}
 	e.whats[n] = w
 	return w
+}
+
+type verifC25Ord struct {
+	comp int // index into the key
+	desc bool
+}
+
+// storageOrder reads the ORDER BY clause of the query the real code would send for this load and
+// maps its sort keys onto key components: every key without DESC sorts ascending (SQL).
+func (e *verifC25Env) storageOrder(c *verifC25Case, pq *queryBuilder, lod data_model.LOD) ([]verifC25Ord, error) {
+	q, err := pq.buildSeriesQuery(lod, "")
+	if err != nil {
+		return nil, fmt.Errorf("stub: buildSeriesQuery: %w", err)
+	}
+	if o, ok := e.orders[q.body]; ok {
+		return o, nil
+	}
+	var ord []verifC25Ord
+	if i := strings.Index(q.body, " ORDER BY "); i >= 0 {
+		rest := q.body[i+len(" ORDER BY "):]
+		if j := strings.Index(rest, " LIMIT "); j >= 0 {
+			rest = rest[:j]
+		}
+		for _, item := range strings.Split(rest, ",") {
+			f := strings.Fields(item)
+			if len(f) == 0 || len(f) > 2 {
+				return nil, fmt.Errorf("stub: cannot read ORDER BY item %q of %q", item, q.body)
+			}
+			desc := len(f) == 2 && strings.EqualFold(f[1], "DESC")
+			if len(f) == 2 && !desc && !strings.EqualFold(f[1], "ASC") {
+				return nil, fmt.Errorf("stub: cannot read ORDER BY item %q of %q", item, q.body)
+			}
+			var n int
+			switch {
+			case f[0] == "_time":
+				// rows are put into their time slot whatever the order
+			case strings.HasPrefix(f[0], "stag"):
+				if _, err := fmt.Sscanf(f[0], "stag%d", &n); err != nil {
+					return nil, fmt.Errorf("stub: unknown sort key %q", f[0])
+				}
+				if n == format.StringTopTagIndexV3 && c.SKey {
+					ord = append(ord, verifC25Ord{comp: c.nby() + 1, desc: desc})
+				}
+			case strings.HasPrefix(f[0], "tag"):
+				if _, err := fmt.Sscanf(f[0], "tag%d", &n); err != nil {
+					return nil, fmt.Errorf("stub: unknown sort key %q", f[0])
+				}
+				if 1 <= n && n <= c.nby() {
+					ord = append(ord, verifC25Ord{comp: n, desc: desc})
+				}
+			default:
+				return nil, fmt.Errorf("stub: unknown sort key %q in %q", f[0], q.body)
+			}
+		}
+	} else {
+		// no order requested: the storage may answer in any order, take the reverse of the wanted one
+		for j := 1; j <= c.nby(); j++ {
+			ord = append(ord, verifC25Ord{comp: j, desc: !c.Desc})
+		}
+	}
+	e.orders[q.body] = ord
+	return ord, nil
 }
 
 func (c *verifC25Case) nby() int {
@@ -262,7 +327,7 @@ func (e *verifC25Env) run(c *verifC25Case) (*verifC25Got, error) {
 	hw := e.handlerWhats(len(c.St))
 	var lods []data_model.LOD
 	for _, l := range c.Lods {
-		lods = append(lods, data_model.LOD{FromSec: l[0], ToSec: l[1], StepSec: 1, Location: e.loc})
+		lods = append(lods, data_model.LOD{FromSec: l[0], ToSec: l[1], StepSec: 1, Version: Version6, Location: e.loc})
 	}
 	req := seriesRequest{
 		numResults: c.Limit,
@@ -300,7 +365,20 @@ func (e *verifC25Env) run(c *verifC25Case) (*verifC25Got, error) {
 				ks = append(ks, k)
 			}
 		}
-		sort.Slice(ks, func(i, j int) bool { return verifC25Before(ks[i], ks[j], c.Desc) })
+		// the storage sorts the way the real query asks it to (ORDER BY of buildSeriesQuery)
+		ord, err := e.storageOrder(c, pq, lod)
+		if err != nil {
+			stubErr = err
+			return nil, err
+		}
+		sort.SliceStable(ks, func(i, j int) bool {
+			for _, o := range ord {
+				if a, b := ks[i][o.comp], ks[j][o.comp]; a != b {
+					return (a < b) != o.desc
+				}
+			}
+			return verifC25Before(ks[i], ks[j], c.Desc) // keys the query leaves unordered
+		})
 		for _, k := range ks {
 			i := k[0] - lod.FromSec
 			res[i] = append(res[i], c.row(q, k))
